@@ -86,6 +86,6 @@ def replay(ctx, path):
 
 MANIFEST = dict(
     category="proof",
-    text="Lean theorems for every backup count n and dump count k: the dump sequence never fails, leaves dump = newest and backups newest-first with count min(n,k-1) and no other file (after_k_dumps); every crash prefix of a dump keeps a complete copy of the previous state when n >= 1 (crash_safe); model tied to RestartManager.hpp by running the real class in a scratch directory with a crash injected at every file-system operation (interposed rename), n=0..8, k up to 20, listings identical.",
-    note="Trusted: Lean kernel + 3 axioms; hand model of get_restart_writer; POSIX rename atomic, closed file = complete; first dump of a restarted process is a recorded finding (known_findings.txt), not covered by crash_safe.",
+    text="Lean theorems for every backup count n and dump count k: the dump sequence never fails, leaves dump = newest and backups newest-first with count min(n,k-1) and no other file (after_k_dumps); every crash prefix of a dump keeps a complete copy of the previous state when n >= 1 (crash_safe); for EVERY history of dumps and process restarts (hrun): no dump ever aborts (history_never_aborts), the newest state is complete in the dump file (history_newest_in_dump), every dump except the first one of a restarted process is crash safe in any reachable directory (crash_safe_history, invariant HInv); the exception is a theorem too (restarted_first_dump_not_crash_safe = the recorded finding); model tied to RestartManager.hpp by running the real class in a scratch directory with a crash injected at every file-system operation (interposed rename), n=0..8, k up to 20, listings identical.",
+    note="Trusted: Lean kernel + 3 axioms; hand model of get_restart_writer; POSIX rename atomic, closed file = complete; first dump of a restarted process is a recorded finding (known_findings.txt), stated as restarted_first_dump_not_crash_safe; the driver executes the same hstep the history theorems are about.",
     technique="Lean 4 proof by induction over dumps and over the shifting loop + exhaustive small-scope differential with crash injection")
